@@ -23,11 +23,34 @@ pub struct Ctl {
     unknown_at: AtomicU64,
     fail_at: AtomicU64,
     log: Mutex<Vec<(char, String)>>,
+    /// fault armed relative to the mutations the model knows (see `arm_model`)
+    model_arm: Mutex<Option<ModelArm>>,
+    /// is this backend mutation one the model knows (document, ids, meta, checkpoint, watermark,
+    /// intent, index manifest) — as opposed to bucket objects, obsolete deletes, db-level objects
+    classify: fn(char, &str) -> bool,
+}
+
+#[derive(Debug, Clone, Copy, PartialEq, Eq)]
+pub enum ArmKind {
+    Crash,
+    Fail,
+    Unknown,
+}
+
+#[derive(Debug)]
+struct ModelArm {
+    kind: ArmKind,
+    km: u64,
+    g: u64,
+    m_seen: u64,
+    g_seen: u64,
 }
 
 impl Ctl {
-    fn new() -> Ctl {
+    fn new(classify: fn(char, &str) -> bool) -> Ctl {
         Ctl {
+            model_arm: Mutex::new(None),
+            classify,
             off: AtomicBool::new(false),
             count: AtomicU64::new(0),
             crash_at: AtomicU64::new(u64::MAX),
@@ -48,6 +71,46 @@ impl Ctl {
             return Ok(false);
         }
         let n = self.count.fetch_add(1, Ordering::AcqRel);
+        {
+            let mut arm = self.model_arm.lock().unwrap();
+            if let Some(a) = arm.as_mut() {
+                let is_model = (self.classify)(op, path.as_ref());
+                match a.kind {
+                    ArmKind::Crash => {
+                        let fire = if a.m_seen >= a.km {
+                            if is_model || a.g_seen >= a.g {
+                                true
+                            } else {
+                                a.g_seen += 1;
+                                false
+                            }
+                        } else {
+                            if is_model {
+                                a.m_seen += 1;
+                            }
+                            false
+                        };
+                        if fire {
+                            *arm = None;
+                            self.off.store(true, Ordering::Release);
+                            return Err(self.injected("power failure", path));
+                        }
+                    }
+                    kind => {
+                        if is_model {
+                            if a.m_seen == a.km {
+                                *arm = None;
+                                if kind == ArmKind::Fail {
+                                    return Err(self.injected("transient error", path));
+                                }
+                                return Ok(true);
+                            }
+                            a.m_seen += 1;
+                        }
+                    }
+                }
+            }
+        }
         if n >= self.crash_at.load(Ordering::Acquire) {
             self.off.store(true, Ordering::Release);
             // the crash is spent; a later `crash_after` arms the next one
@@ -69,6 +132,14 @@ impl Ctl {
     fn landed(&self, op: char, path: &Path) {
         self.log.lock().unwrap().push((op, path.to_string()));
     }
+    /// Fault positioned relative to the mutations the model knows, counted from now.
+    /// `Crash`: the first `km` model-level mutations and then `g` further abstracted ones (bucket
+    /// objects, obsolete deletes, db-level objects) succeed; the next mutation — or already the next
+    /// model-level one — meets the power loss. `Fail` / `Unknown`: the (km+1)-th model-level mutation.
+    /// Independent of how many abstracted mutations the index crates happen to issue.
+    pub fn arm_model(&self, kind: ArmKind, km: u64, g: u64) {
+        *self.model_arm.lock().unwrap() = Some(ModelArm { kind, km, g, m_seen: 0, g_seen: 0 });
+    }
     /// power failure after `n` more mutations (counted from now)
     pub fn crash_after(&self, n: u64) {
         let base = self.count.load(Ordering::Acquire);
@@ -89,6 +160,7 @@ impl Ctl {
         self.crash_at.store(u64::MAX, Ordering::Release);
         self.unknown_at.store(u64::MAX, Ordering::Release);
         self.fail_at.store(u64::MAX, Ordering::Release);
+        *self.model_arm.lock().unwrap() = None;
     }
     /// power returns; armed faults and the log are kept
     pub fn power_on(&self) {
@@ -96,7 +168,8 @@ impl Ctl {
     }
     /// a fault is armed and has not fired yet
     pub fn fault_pending(&self) -> bool {
-        self.crash_at.load(Ordering::Acquire) != u64::MAX
+        self.model_arm.lock().unwrap().is_some()
+            || self.crash_at.load(Ordering::Acquire) != u64::MAX
             || self.unknown_at.load(Ordering::Acquire) != u64::MAX
             || self.fail_at.load(Ordering::Acquire) != u64::MAX
     }
@@ -118,6 +191,7 @@ impl Ctl {
         self.crash_at.store(u64::MAX, Ordering::Release);
         self.unknown_at.store(u64::MAX, Ordering::Release);
         self.fail_at.store(u64::MAX, Ordering::Release);
+        *self.model_arm.lock().unwrap() = None;
         self.count.store(0, Ordering::Release);
         self.log.lock().unwrap().clear();
     }
@@ -130,8 +204,8 @@ pub struct VStore {
 }
 
 impl VStore {
-    pub fn wrap(inner: Arc<dyn ObjectStore>) -> (VStore, Arc<Ctl>) {
-        let ctl = Arc::new(Ctl::new());
+    pub fn wrap(inner: Arc<dyn ObjectStore>, classify: fn(char, &str) -> bool) -> (VStore, Arc<Ctl>) {
+        let ctl = Arc::new(Ctl::new(classify));
         (VStore { inner, ctl: ctl.clone() }, ctl)
     }
 }
